@@ -52,7 +52,15 @@ def _c08_nontrivial(r):
     if parts[0] == "parse": return parts[1] != "0" and not parts[2].startswith("0:")
     return True
 
+def _enc_nontrivial(r):
+    # non-trivial: an encoding request (not an eq line) whose input has >= 2 bytes and that succeeded
+    parts = r.split()
+    return parts[0] == "enc" and len(parts[7]) >= 4 and parts[8].startswith("ok")
+
 NONTRIVIAL = {
+    "C01": _enc_nontrivial, "C02": _enc_nontrivial, "C13": _enc_nontrivial, "C16": _enc_nontrivial,
+    "C18": _enc_nontrivial, "C19": _enc_nontrivial,
+    "C11": (lambda r: r.split()[0] == "enc"),
     "C08": _c08_nontrivial,
     "C07": _c07_nontrivial,
     "C12": _c12_nontrivial,
@@ -67,7 +75,21 @@ def count_nontrivial(pid, reqs):
             seen.add(r)
     return len(seen)
 
+ENC_RULE = 'cases: (input, mode set, symbol list, macro flag, FNC1 flag[, ECI]) tuples: a fixed corpus (repository regression inputs, past minimised failures), all strings over an 8-letter class alphabet (digit, upper, lower, space, X12 special, punctuation, >=128, control) up to the stated length x sampled configurations incl. a single just-fitting size, and structured random inputs (runs of byte classes, lengths 0..3200, macro envelope shapes) x weighted mode subsets x lists (default/all/single/pair/random/sparse); non-trivial = distinct successful encodings of inputs with >= 2 bytes'
+
 PROPS = {
+    "C02": {
+        "lean": [],
+        "gens": ["c02"],
+        "level": "exploration",
+        "release": True,
+        "rule": ENC_RULE,
+        "explanation": "Every successful encoding of the sweep is checked by oracles compiled from the Lean specifications: the independent ISO/IEC 16022 reference decoder (DM/Spec/Stream.lean) must decode the data codewords to the input (latches/unlatches, shift sets, upper shift, X12, EDIFACT unlatch, Base256 length and 255-state randomisation, end-of-symbol rules, Macro/FNC1/ECI headers, 253-state pads after a pad reached in ASCII mode), the size must be a member of the list, the codeword counts must be the catalogue's (C12) and the error part must have zero table-free syndromes (C06).",
+        "level_text": "Exploration with a specification oracle: no theorem yet covers the mode encoders; the reference decoder, the catalogue and the RS oracle are the Lean specs of C12/C06, evaluated on the implementation's output for every case of a structured sweep (exhaustive short strings + random).",
+        "level_note": "Trusted: the reference decoder's reading of ISO/IEC 16022 5.2 (interpretation decisions in DESIGN.md 5.0), the harness. Not a proof: the sweep samples the input space.",
+        "technique": "specification oracle (Lean reference decoder, compiled) on implementation output over an exhaustive-short + structured random sweep",
+        "assumptions": [],
+    },
     "C08": {
         "lean": ["DM.Props.C08"],
         "gens": ["c08"],
@@ -118,3 +140,42 @@ PROPS = {
         "technique": "Lean 4 theorems (decide over regenerated tables + induction) with model/implementation correspondence",
     },
 }
+
+def _enc_prop(gen, expl, text, note, tech, level="exploration", lean=None, extra=None):
+    d = {"lean": lean or [], "gens": [gen], "level": level, "release": True, "rule": ENC_RULE,
+         "explanation": expl, "level_text": text, "level_note": note, "technique": tech, "assumptions": []}
+    if extra: d.update(extra)
+    return d
+
+PROPS.update({
+    "C01": _enc_prop("c01",
+        "For every successful encoding of the sweep: decode_data(data codewords) and DataMatrix::decode(bitmap pixels, width) must both return exactly the input (compared in the harness on the real code), and the independent reference decoder (DM/Spec/Stream.lean) must decode the stream to the input as well. The symbol-level half of the pipeline (render -> parse -> read codewords -> RS check) is covered for all contents by the theorems of C06, C07 and C08.",
+        "Exploration with specification oracle for the data-level round trip (encoder and planner are not yet modelled in Lean); the symbol-level half is proved (C06/C07/C08).",
+        "Trusted: reference decoder reading of ISO/IEC 16022 5.2, harness. Sweep samples the input space.",
+        "round trip on the real code + Lean reference decoder as oracle over exhaustive-short and structured random sweep"),
+    "C13": _enc_prop("c13",
+        "For every successful encoding the reference decoder's trace (carrying mode of every byte, list of latches) is checked: no latch into a disabled mode, no byte carried by a disabled non-ASCII mode, and when ASCII is disabled the bytes carried by ASCII form a suffix of at most 4 characters that follows some latch (the standard's end-of-data fallback).",
+        "Exploration with specification oracle (mode trace of the Lean reference decoder).",
+        "Trusted: reference decoder, harness. Sweep samples the input space; mode subsets without ASCII are over-represented on purpose.",
+        "mode-trace oracle (Lean reference decoder) on implementation output"),
+    "C16": _enc_prop("c16",
+        "Macro shape oracle: the first data codeword is 236/237 exactly when macros are enabled, no FNC1 start was requested and the input is header ++ body ++ trailer (length >= 9); with FNC1 start the first codeword is 232; otherwise no header codeword; plus the round-trip oracles of C01/C02 on macro-shaped inputs (proper envelopes and all near misses: header only, trailer only, truncated header, partial trailer, bare header, header+trailer only).",
+        "Exploration with specification oracle on macro-shaped inputs (80% of the sweep).",
+        "Trusted: reference decoder, harness.",
+        "macro/FNC1 shape oracle + round trip on envelope-shaped inputs"),
+    "C11": _enc_prop("c11",
+        "Totality and classification oracle on the real code: no panic/abort for any (input, list incl. empty and singletons, mode set incl. empty and without ASCII, macro, FNC1, ECI) of the sweep (each case under catch_unwind, a planner step cap converts runaway planning into a failure), SymbolListEmpty iff the list is empty, every other refusal TooMuchOrIllegalData.",
+        "Exploration (panic-freedom and error classification observed on the real code in the checked profile; release profile in the thorough tier).",
+        "Trusted: harness; catch_unwind cannot catch aborts (the harness records the running case so an abort is attributed).",
+        "catch_unwind sweep with error-classification oracle"),
+    "C18": _enc_prop("c18",
+        "Plan/encoder agreement oracle: the plan the encoder used (hook) is non-empty, names only enabled modes, positions never increase and end at 0; the non-ASCII latches in the output (reference decoder) are the non-ASCII plan entries with >= 1 character in order; the symbol used is not larger than first_big_enough(list, prefix + ceil(cost)) predicted by the planner (hook cost).",
+        "Exploration with specification oracle and planner hooks.",
+        "Trusted: reference decoder, hooks (last_plan, chosen cost), harness.",
+        "plan-vs-stream oracle using planner hooks"),
+    "C19": _enc_prop("c19",
+        "Instrumented counters (hook): number of Plan::step calls <= 216*(n+1)+5 and live plans after pruning <= 36 for every case, including adversarial alternations and maximal inputs; a step cap of 2,000,000 turns exponential planning into a failure instead of a hang.",
+        "Exploration of instrumented step counts (not a stopwatch).",
+        "Trusted: hook counters, harness.",
+        "instrumented step/live-plan counters against the linear bound"),
+})
